@@ -7,6 +7,11 @@ BASE = json.load(open('/root/.vp/BASELINE.json'))['cmd'] if os.path.exists('/roo
 
 # id -> (engine, category, technique, level text, level note, design ref)
 CHECKS = {
+ "C01": ("E1-opseq", "model_checking",
+         "explicit-state breadth-first search over operation sequences with canonical-state dedup; every transition re-executes the real index",
+         "Breadth-first search over sequences of batches (single operations, multi-operation batches with several operations on one id, empty batch, delete of an absent id, internal keys) and layout operations (ForceMerge, Close+Open) up to depth 3 (quick) / 4 (thorough) for each index configuration (scorch in memory incl. forced zap v11–v16, scorch on disk with merges suppressed / aggressive / default, unsafe_batch with 2 persister workers, upsidedown over gtreap, boltdb, moss, goleveldb). Every transition replays the path on a fresh real index and compares DocCount, Document(id) for every id incl. a never-used one, match-all, doc-id and term searches and GetInternal with a map model; states are merged by (model state, segment layout signature).",
+         "Depth bound; id space {a,b}+absent ids; three document versions; document order inside a batch segment never compared.",
+         "DESIGN.md §5 C01"),
  "C08": ("E2-space", "model_checking",
          "exhaustive enumeration of all Next/Advance programs up to a length bound over all internal-id targets, on every searcher of a bounded query family and every index shape",
          "For every index shape (multi-segment layouts with deletions, a fully deleted segment, zero segments) × every query tree of the family (leaves, 9 compound forms over ordered pairs, depth-3 nestings) × searcher options × {scorch, upsidedown} × {slice, heap} disjunction: every program of Next / Advance(t) calls up to the bound, t ranging over ALL internal ids above the last returned one (matching, non-matching, deleted, segment boundaries, past the end), is executed on a fresh real searcher and compared with the Next-only enumeration, which itself must be strictly ascending and equal to the reference evaluator's live match set.",
